@@ -327,73 +327,115 @@ def check_merge_order(ctx):
     db = ctx.db
     rule = 'R-PROV/merge-order'
     specs = [
-        # (function, name of the collection iterated by the merge,
-        #  'append' = filled by append in dispatch order,
-        #  'sorted' = a key list that is sorted before the loop)
-        ('diff_exp.precompute_from_anndata:'
-         '_precompute_summary_stats_from_h5ad_and_lookup',
-         'buffer_path_list', 'append'),
-        ('utils.csc_to_csr_parallel:_transpose_sparse_matrix_on_disk_v2',
-         'path_list', 'append'),
-        ('diff_exp.markers:_merge_sparse_by_pair_files',
-         'col0_values', 'sorted'),
-        ('diff_exp.p_value_mask:_merge_masks', 'idx_values', 'sorted'),
-        ('type_assignment.election:run_type_assignment_on_h5ad_cpu',
-         'path_list', 'sorted'),
+        'diff_exp.precompute_from_anndata:'
+        '_precompute_summary_stats_from_h5ad_and_lookup',
+        'utils.csc_to_csr_parallel:_transpose_sparse_matrix_on_disk_v2',
+        'diff_exp.markers:_merge_sparse_by_pair_files',
+        'diff_exp.p_value_mask:_merge_masks',
+        'type_assignment.election:run_type_assignment_on_h5ad_cpu',
     ]
-    for (q, name, how) in specs:
+    for q in specs:
         fi = db.fn(q)
         ctx.touch(fi)
         cfg = cfg_of(fi)
         rd = rd_of(fi)
-        loops = [n for n in cfg.nodes if n.kind == 'for' and n.id in rd.live
-                 and isinstance(n.ast.iter, ast.Name)
-                 and n.ast.iter.id == name]
-        key = f'{fi.qual}:{name}'
+        # a merge loop reads one per-worker file per iteration: its body
+        # opens (for reading) a path that depends on the loop variable.
+        # The collection it iterates is found by that role, not by name.
+        loops = []
+        for n in cfg.nodes:
+            if n.kind != 'for' or n.id not in rd.live \
+                    or not isinstance(n.ast.iter, ast.Name):
+                continue
+            tv = {x.id for x in ast.walk(n.ast.target)
+                  if isinstance(x, ast.Name)}
+            grow = True
+            while grow:
+                grow = False
+                for st in ast.walk(n.ast):
+                    if isinstance(st, ast.Assign) and len(
+                            st.targets) == 1 and isinstance(
+                                st.targets[0], ast.Name) \
+                            and st.targets[0].id not in tv and any(
+                                isinstance(x, ast.Name) and x.id in tv
+                                for x in ast.walk(st.value)):
+                        tv.add(st.targets[0].id)
+                        grow = True
+            reads = False
+            for c in ast.walk(n.ast):
+                if isinstance(c, ast.Call) and unparse(c.func) in (
+                        'h5py.File', 'open') and c.args and any(
+                            isinstance(x, ast.Name) and x.id in tv
+                            for x in ast.walk(c.args[0])):
+                    mode = c.args[1] if len(c.args) > 1 else None
+                    for kw in c.keywords:
+                        if kw.arg == 'mode':
+                            mode = kw.value
+                    if mode is None or (isinstance(mode, ast.Constant)
+                                        and str(mode.value).startswith('r')
+                                        and '+' not in str(mode.value)):
+                        reads = True
+            if reads:
+                loops.append(n)
         if not loops:
-            ctx.fail(rule, key, fi.loc(),
-                     f'no merge loop iterates `{name}`: the merge order is '
-                     'no longer the recognised deterministic one')
+            ctx.fail(rule, f'{fi.qual}:merge-loop', fi.loc(),
+                     'no loop that reads one per-worker file per iteration '
+                     'was found: the merge is no longer recognised')
             continue
-        muts = rd.mutations(name)
         for lp in loops:
-            if how == 'append':
+            name = lp.ast.iter.id
+            key = f'{fi.qual}:{unparse(lp.ast.target)} in <{_coll_role(rd, name, lp)}>'
+            defs = rd.reaching(name, lp.id)
+            muts = rd.mutations(name)
+            if all(d.kind == 'param' for d in defs):
                 bad = [(n_, a_, h_) for (n_, a_, h_) in muts
                        if h_ not in ('append',)]
-                defs = rd.reaching(name, lp.id)
-                fresh = all(d.kind == 'assign' and isinstance(
-                    d.value, ast.List) and not d.value.elts for d in defs)
-                ok = not bad and fresh
+                ctx.ob(rule, key, fi.loc(lp.ast), not bad,
+                       f'`{name}` is iterated in the order the caller '
+                       'built it' if not bad else
+                       f'`{name}` is re-ordered before the merge')
+                continue
+            fresh = all(d.kind == 'assign' and isinstance(
+                d.value, ast.List) and not d.value.elts for d in defs)
+            if fresh:
+                bad = [(n_, a_, h_) for (n_, a_, h_) in muts
+                       if h_ not in ('append',)]
+                ok = not bad
                 ctx.ob(rule, key, fi.loc(lp.ast), ok,
                        f'`{name}` is filled by append in dispatch '
                        '(program) order and iterated as is' if ok else
-                       f'`{name}` is '
-                       + ('re-ordered: ' + ', '.join(
+                       f'`{name}` is re-ordered: ' + ', '.join(
                            unparse(a_)[:40] for (_n, a_, _h) in bad)
-                          if bad else 'not a list filled by append')
                        + '; the merge order can differ between runs')
-            else:
-                # sorted before the loop on every path
-                sort_nodes = {n_ for (n_, a_, h_) in muts if h_ == 'sort'
-                              and not any(k.arg == 'key'
-                                          for k in a_.keywords)}
-                defs = rd.reaching(name, lp.id)
-                ok = True
-                for d in defs:
-                    if d.kind == 'assign' and isinstance(
-                            d.value, ast.Call) and isinstance(
-                                d.value.func, ast.Name) \
-                            and d.value.func.id == 'sorted':
-                        continue
-                    okp, p = cfg.must_pass(
-                        d.node, {lp.id}, lambda x: x.id in sort_nodes,
-                        edge_ok=lambda a, b, lab: lab != 'exc')
-                    if not okp:
-                        ok = False
-                ctx.ob(rule, key, fi.loc(lp.ast), ok,
-                       f'`{name}` is sorted before the merge loop' if ok
-                       else f'`{name}` reaches the merge loop unsorted: '
-                       'the pieces are merged in dict / directory order')
+                continue
+            # otherwise: sorted before the loop on every path
+            sort_nodes = {n_ for (n_, a_, h_) in muts if h_ == 'sort'
+                          and not any(k.arg == 'key'
+                                      for k in a_.keywords)}
+            ok = True
+            for d in defs:
+                if d.kind == 'assign' and isinstance(
+                        d.value, ast.Call) and isinstance(
+                            d.value.func, ast.Name) \
+                        and d.value.func.id == 'sorted':
+                    continue
+                okp, p = cfg.must_pass(
+                    d.node, {lp.id}, lambda x: x.id in sort_nodes,
+                    edge_ok=lambda a, b, lab: lab != 'exc')
+                if not okp:
+                    ok = False
+            ctx.ob(rule, key, fi.loc(lp.ast), ok,
+                   f'`{name}` is sorted before the merge loop' if ok
+                   else f'`{name}` reaches the merge loop unsorted: '
+                   'the pieces are merged in dict / directory order')
+
+
+def _coll_role(rd, name, lp):
+    defs = rd.reaching(name, lp.id)
+    if all(d.kind == 'param' for d in defs):
+        return 'param ' + name
+    kinds = sorted({type(getattr(d, 'value', None)).__name__ for d in defs})
+    return 'local:' + '/'.join(kinds)
 
 
 # ----------------------------------------------------------------------
